@@ -127,6 +127,17 @@ func cmdReplay(args []string) int {
 	for _, o := range nr.Obs {
 		fmt.Println("  OBS", o)
 	}
+	if rf.Race {
+		if i := strings.Index(nr.Raw, "WARNING: DATA RACE"); i >= 0 {
+			r := nr.Raw[i:]
+			if len(r) > 3000 {
+				r = r[:3000]
+			}
+			fmt.Println(r)
+			fmt.Printf("REPRODUCED: %s (race detector report)\n", rf.Msg)
+			return 1
+		}
+	}
 	if confirms(&Failure{Kind: rf.Kind, Msg: rf.Msg}, nr) {
 		fmt.Printf("REPRODUCED: %s\n", rf.Msg)
 		return 1
@@ -582,7 +593,42 @@ func writeEvidence(id, tier string, seed int64, pp *PropPlan, results []*Result,
 
 func round3(f float64) float64 { return float64(int64(f*1000+0.5)) / 1000 }
 
+// cmdSelftest: self-validation of the machinery against the native build.
+//   race: the lockset verdicts of C05/C20 are compared with Go's race detector
+//         (go build -race, harness demonstration mode) for every generated program.
 func cmdSelftest(args []string) int {
-	fmt.Println("selftest: not implemented yet")
+	bad := 0
+	files := []string{"api.go", "common.go", "c04.go", "c20.go"}
+	nb, err := buildNative(files, true)
+	if err != nil {
+		fmt.Println("NATIVE-BUILD-ERROR:", err)
+		return 2
+	}
+	defer nb.Close()
+	n := 0
+	for prog := 0; prog < 30; prog++ {
+		for opt := 0; opt < 4; opt += 3 {
+			nr := nb.run(nativeCase{Harness: "HarnessC05", Vector: []uint64{uint64(prog), uint64(opt & 1), uint64(opt >> 1)}, Params: map[string]int{"race": 1}}, 120*time.Second)
+			if nr.Status == "panic" && strings.Contains(nr.Msg, "index out of range") {
+				prog = 1000
+				break
+			}
+			n++
+			if strings.Contains(nr.Raw, "DATA RACE") || nr.Status != "ok" {
+				bad++
+				fmt.Printf("selftest race: HarnessC05 program %d options %d: %s %s\n", prog, opt, nr.Status, firstLine(nr.Raw))
+			}
+		}
+	}
+	nr := nb.run(nativeCase{Harness: "HarnessC20Locking", Params: map[string]int{"race": 1}}, 120*time.Second)
+	n++
+	if strings.Contains(nr.Raw, "DATA RACE") || nr.Status != "ok" {
+		bad++
+		fmt.Printf("selftest race: HarnessC20Locking: %s %s\n", nr.Status, firstLine(nr.Raw))
+	}
+	fmt.Printf("selftest race: %d concurrent native demonstrations under the race detector, %d with a report\n", n, bad)
+	if bad > 0 {
+		return 1
+	}
 	return 0
 }
